@@ -31,6 +31,21 @@ from .common import VERIF, REPO, log
 LEVELS = json.loads((VERIF / "harness" / "levels.json").read_text())
 
 
+class _Journal(list):
+    """The list of violations; the first few are also appended to a side file (VERIF_JOURNAL, set by bin/check) the moment
+    they are found, so that a failing input survives an interpreter crash inside the implementation later in the run."""
+
+    def append(self, v):
+        super().append(v)
+        j = os.environ.get("VERIF_JOURNAL")
+        if j and len(self) <= 40:
+            try:
+                with open(j, "a") as fh:
+                    fh.write(json.dumps(v, default=str) + "\n")
+            except OSError:
+                pass
+
+
 class Result:
     """What a property module reports back."""
 
@@ -39,7 +54,7 @@ class Result:
         self.nontrivial = set()          # hashes of distinct non-trivial cases
         self.samples = []
         self.rule = ""
-        self.violations = []             # dicts: sig{}, case{}, observed, expected, what
+        self.violations = _Journal()     # dicts: sig{}, case{}, observed, expected, what
         self.model_mismatches = []       # dicts: case{}, impl, model  (correspondence broken)
         self.hist = {}                   # input-distribution histograms
         self.extra = {}
